@@ -50,6 +50,27 @@ def T(s):
     return toks(s)
 
 
+def alpha(ts):
+    """the token list with its local names (`let [mut] NAME`, closure parameters `|NAME|`) renamed in order of
+    binding: two bodies that differ only in the names of their locals read the same"""
+    names = {}
+    for i, t in enumerate(ts):
+        cand = None
+        if t == 'let' and i + 1 < len(ts):
+            cand = ts[i + 2] if ts[i + 1] == 'mut' and i + 2 < len(ts) else ts[i + 1]
+        elif t == '|' and i + 2 < len(ts) and ts[i + 2] == '|' and re.match(r'^[a-z_][a-z0-9_]*$', ts[i + 1]):
+            cand = ts[i + 1]
+        if cand and re.match(r'^[a-z_][a-z0-9_]*$', cand) and cand not in names and cand != '_':
+            names[cand] = f'_v{len(names)}'
+    out = []
+    for i, t in enumerate(ts):
+        if t in names and (i == 0 or ts[i - 1] not in ('.', '::')) and not (i + 1 < len(ts) and ts[i + 1] == ':' and i > 0 and ts[i - 1] in ('{', ',')):
+            out.append(names[t])
+        else:
+            out.append(t)
+    return out
+
+
 def main():
     repo, out = sys.argv[1], sys.argv[2]
     problems, checked = [], 0
@@ -61,17 +82,33 @@ def main():
         if not b or len(b) <= which:
             problems.append(f'fn {name} not found')
             return
-        if b[which] != T(want):
+        wants = want if isinstance(want, list) else [want]
+        if not any(alpha(b[which]) == alpha(T(w)) for w in wants):
+            want = wants[0]
             problems.append(f'fn {name}{" (" + what + ")" if what else ""}: body is `{" ".join(b[which])[:300]}`, expected `{" ".join(T(want))}`')
 
     st = fn_bodies(toks(open(os.path.join(repo, 'crates/trippy-core/src/strategy.rs')).read()))
-    expect(st, 'run', '''let mut state = TracerState::new(self.config);
+    # the loop of the model: `while` form, or the same loop written with `loop { if finished { break; } … }`
+    expect(st, 'run', ['''let mut state = TracerState::new(self.config);
         while !state.finished(self.config.max_rounds) {
             self.send_request(&mut network, &mut state)?;
             self.recv_response(&mut network, &mut state)?;
             self.update_round(&mut state);
         }
-        Ok(())''')
+        Ok(())''', '''let mut state = TracerState::new(self.config);
+        loop {
+            if state.finished(self.config.max_rounds) { break; }
+            self.send_request(&mut network, &mut state)?;
+            self.recv_response(&mut network, &mut state)?;
+            self.update_round(&mut state);
+        }
+        Ok(())''', '''let mut state = TracerState::new(self.config);
+        loop {
+            if state.finished(self.config.max_rounds) { return Ok(()); }
+            self.send_request(&mut network, &mut state)?;
+            self.recv_response(&mut network, &mut state)?;
+            self.update_round(&mut state);
+        }'''])
     expect(st, 'verif_iterate', '''self.send_request(network, &mut st.0)?; self.recv_response(network, &mut st.0)?;
         self.update_round(&mut st.0); Ok(())''')
     expect(st, 'verif_send_request', 'self.send_request(network, &mut st.0)')
@@ -107,17 +144,25 @@ def main():
     if ri is None or vi is None:
         problems.append('run_internal / verif_run_internal not found')
     else:
-        s = ' '.join(ri)
-        disc = ' '.join(T('''let source_addr = match self.source_addr {
+        def remove_seq(ts, seq):
+            for i in range(len(ts) - len(seq) + 1):
+                if ts[i:i + len(seq)] == seq:
+                    return ts[:i] + ts[i + len(seq):], True
+            return ts, False
+        disc = T('''let source_addr = match self.source_addr {
                 None => SourceAddr::discover::<SocketImpl, PlatformImpl>(self.target_addr, self.port_direction, self.interface.as_deref(),)?,
                 Some(addr) => SourceAddr::validate::<SocketImpl>(addr)?,
-            };'''))
-        drop = ' '.join(T('if self.drop_privileges { Privilege::drop_privileges()?; }'))
-        if disc not in s or drop not in s:
+            };''')
+        drop = T('if self.drop_privileges { Privilege::drop_privileges()?; }')
+        body, ok1 = remove_seq(list(ri), disc)
+        body, ok2 = remove_seq(body, drop)
+        if not (ok1 and ok2):
             problems.append('run_internal no longer has the source discovery / privilege drop the hook is known to leave out')
-        s = s.replace(disc + ' ', '').replace(drop + ' ', '').replace('Channel :: < SocketImpl >', 'Channel :: < S >')
-        if s != ' '.join(vi):
-            problems.append(f'verif_run_internal differs from run_internal (minus discovery and privilege drop): `{" ".join(vi)[:400]}` vs `{s[:400]}`')
+        body = ['S' if (t == 'SocketImpl' and k >= 2 and body[k - 1] == '<' and body[k - 2] == '::' ) else t for k, t in enumerate(body)]
+        # modulo the names of the locals
+        if alpha(body) != alpha(vi):
+            k = next((i for i, (x, y) in enumerate(zip(alpha(body), alpha(vi))) if x != y), min(len(body), len(vi)))
+            problems.append(f'verif_run_internal differs from run_internal (minus discovery and privilege drop) at token {k}: `{" ".join(vi[max(0, k - 10):k + 10])}` vs `{" ".join(body[max(0, k - 10):k + 10])}`')
     checked += 1
     if not any(b == T('self.run_internal(func).map_err(|err| self.handle_error(err))') for b in tr.get('run_with', [])):
         problems.append('TracerInner::run_with is no longer `self.run_internal(func).map_err(|err| self.handle_error(err))`')
